@@ -16,6 +16,8 @@ fn base_geometries() -> Vec<([f64; 7], [f64; 6], [i8; 6])> {
         ([0.149, -0.119, 0.0, 0.1, 0.2384, 0.17, 0.1208], [0.0; 6], [-1, 1, 1, 1, 1, 1]),
         ([0.025, -0.035, 0.0, 0.400, 0.455, 0.420, 0.080], [0.0, 0.0, 0.0, 0.0, 0.0, PI], [1, 1, -1, -1, -1, -1]),
         ([0.075, 0.04, 0.02, 0.335, 0.270, 0.295, 0.08], [0.0; 6], [1; 6]),
+        // the documented FANUC style: an offset AND a reversed direction on the same joint
+        ([0.15, -0.10, 0.0, 0.525, 0.77, 0.74, 0.10], [0.0, 0.0, -PI / 2.0, 0.0, 0.0, PI], [1, 1, -1, -1, -1, -1]),
     ]
 }
 
@@ -238,6 +240,16 @@ fn world_aabb(mesh: &parry3d::shape::TriMesh, pose: &Isometry3<f32>) -> Aabb {
 pub fn gen_robot(w: &mut Rng, k: &CellKnobs) -> CellSpec {
     let geos = base_geometries();
     let (mut p, offsets, signs) = geos[w.below(geos.len())].clone();
+    let (mut offsets, mut signs) = (offsets, signs);
+    if w.chance(0.2) {
+        // arbitrary calibration offsets and joint directions
+        for j in 0..6 {
+            if w.chance(0.5) {
+                offsets[j] = w.range_f64(-PI, PI);
+            }
+            signs[j] = if w.chance(0.5) { 1 } else { -1 };
+        }
+    }
     let scale = w.range_f64(0.7, 1.3);
     for x in p.iter_mut() {
         *x *= scale * w.range_f64(0.9, 1.1);
@@ -308,6 +320,7 @@ pub fn gen_robot(w: &mut Rng, k: &CellKnobs) -> CellSpec {
         env: vec![],
         safety: SafetySpec::touch(Mode::All),
         ctor: k.ctor,
+        limits_ctor: *w.pick(&[0u8, 0, 0, 1, 2]),
     }
 }
 
